@@ -246,7 +246,7 @@ def main():
     progs = dict(corpus.programs)
     progs.update(extra)
     for name, p in sorted(progs.items()):
-        Us = [2] if tier == "quick" else [2, 3]
+        Us = ([2, 3] if p.get("kind") == "kernel" else [2]) if tier == "quick" else [2, 3]
         if tier != "quick" and p.get("kind") == "kernel":
             # U = 4 for kernels whose relations have arity <= 2: with as many elements as a family has match variables every
             # equality pattern among the values of a match is covered (the enumeration count of one assignment depends on the
